@@ -329,6 +329,25 @@ ADDENDA = {
            'mirrored-rate forecast pairs (ties across signs) under event re-ordering, re-ordering in place on a catalog '
            'object that was evaluated before.',
 }
+for _k, _v in {
+    'C01': 'Round 9/10: regions built in other process-wide surroundings (decimal context, print options), tuple inputs, anchors small compared with the spacing on long lattices.',
+    'C02': 'Round 9/10: edited generator outputs, other surroundings, upper limits between two edges.',
+    'C03': 'Round 9/10: returned count arrays overwritten before the next call, a quadtree grid that does not fill its box.',
+    'C04': 'Round 9/10: option spellings (numpy.bool_, 0 / 1), events on quadtree tile edges.',
+    'C07': 'Round 9/10: catalogs of about 1e5 events differing by one, array scale factors.',
+    'C09': 'Round 9/10: counts around 1e5, whole numbers beyond 2**53 (open finding for uint64 storage), edited ecdf() outputs.',
+    'C10': 'Round 9/10: numpy division error state set to raise, observed events below the lowest magnitude.',
+    'C11': 'Round 9/10: other surroundings / relative paths, lattices with empty lines (islands).',
+    'C12': 'Round 9/10: exponent notation, rows of zeros, Path / relative names.',
+    'C13': 'Round 9/10: catalogs with their own region, a fractional mainshock second with near-threshold magnitudes, overwritten rate arrays.',
+    'C14': 'Round 9/10: option spellings, other surroundings.',
+    'C16': 'Round 9/10: arrays re-scaled in place by the caller, integer-typed rates.',
+    'C17': 'Round 9/10: Fraction / Decimal coordinates next to an edge.',
+    'C18': 'Round 9/10: a child interpreter under an ASCII locale, Path / relative names.',
+    'C19': 'Round 9/10: Path / relative names, 17-digit ZMAP text.',
+    'C20': 'Round 9/10: only one forecast of a pair re-ordered, orderly re-orderings of a complete lattice.',
+}.items():
+    ADDENDA[_k] = (ADDENDA.get(_k, '') + ' ' + _v).strip()
 
 NOT_YET = 'check not built yet in this round (specification planned in DESIGN.md section 5); not claimed until it exists'
 
